@@ -9,17 +9,19 @@ RULE = (
     "tables of 0-6 rows x 0-8 cells over an alphabet with runs of equal cells, equal adjacent rows, empty cells and rows, "
     "multiple / leading / trailing blanks, tabs, line breaks, XML-special and non-ASCII characters, written by an independent "
     "ODF encoder (zipfile + hand-written XML) with each optional feature switched on or off independently (column runs, "
-    "row runs, text:s, text:tab, text:line-break, spans, several paragraphs: all 128 combinations), 1-3 sheets each of "
+    "row runs, text:s, text:tab, text:line-break, spans, several paragraphs: all 128 combinations; plus, each with probability 0.3, the structural "
+    "encodings header rows (table:table-header-rows), nested outline groups (table:table-row-group), merged cells (table:covered-table-cell) and "
+    "cell annotations), 1-3 sheets each of "
     "which is requested, XML encodings UTF-8 / UTF-16 / ISO-8859-1; read with rowio.ods_rows and (rectangular tables) "
     "with cutplace.rows under an ODS CID with a Sheet property; expected = the table handed to the encoder. Faults: "
     "missing sheet, not a zip archive, no content.xml, archive truncated at every 64th byte, content.xml cut at every tag "
-    "boundary, repeat counts 0 / -1 / x / empty on columns and rows - expected DataFormatError. A case is (tables, "
+    "boundary, repeat counts 0 / -1 / x / empty / 1.5 / 1_0 / 1e1 / 0x10 / non-ASCII digits on columns, rows and text:s - expected DataFormatError. A case is (tables, "
     "feature set, encoding, sheet) or a fault, distinct by digest; non-trivial when an optional feature is on, there are "
     ">= 2 sheets, or it is a fault."
 )
 ASSUMPTIONS = [
     "a run of equal, completely empty rows at the very end of a sheet is unjudged: it cannot be told apart from the filler rows spreadsheet applications append",
-    "the encoder follows ODF 1.2 white-space rules; merged cells, header-row groups and annotations are never emitted (unjudged constructs)",
+    "the encoder follows ODF 1.2 white-space rules; a merged cell denotes its text followed by empty cells for the cells it covers",
     "several paragraphs in one cell denote the paragraph texts joined by line breaks",
 ]
 
@@ -83,6 +85,11 @@ def filler_zone(ctx, table, got, features):
 
 def classify(table, got, features):
     """Mechanism key of a mismatch (defect models of known findings first)."""
+    if ("headerrows" in features or "rowgroups" in features) and len(got) < len(table) and all(r in table for r in got):
+        return "C15:rows-in-row-containers-dropped"
+    if "covered" in features and len(got) == len(table) and any(len(g) < len(t) for g, t in zip(got, table)) and \
+            all([c for c in g if c != ""] == [c for c in t if c != ""] for g, t in zip(got, table)):
+        return "C15:covered-cells-dropped"
     if "rowruns" in features and got == rows_collapsed(table) and got != table:
         return "C15:row-runs-collapsed"
     if len(got) == len(table) and all(len(g) == len(t) for g, t in zip(got, table)):
@@ -109,6 +116,11 @@ def check_table(ctx, index):
     rng = ctx.rng("table", index)
     fsets = feature_sets()
     features = fsets[index % len(fsets)]
+    # structural encodings are switched on independently of the 128 combinations of the text-level ones
+    features = features + tuple(f for f in storage.STRUCTURE_ODS_FEATURES if rng.random() < 0.3)
+    for f in storage.STRUCTURE_ODS_FEATURES:
+        if f in features:
+            ctx.count("tables.with-" + f)
     encoding = ["UTF-8", "UTF-8", "UTF-16", "ISO-8859-1"][(index // len(fsets)) % 4]
     nsheets = rng.choice([1, 1, 2, 3])
     sheets = [gen_table(rng, features, encoding == "ISO-8859-1") for _ in range(nsheets)]
@@ -244,13 +256,22 @@ def check_faults(ctx, index):
             storage.write_ods_raw(path, junk)
             expect_format_error(ctx, {"fault": "content-xml-malformed", "bytes": repr(junk)}, path, 1, "content-xml-malformed")
     else:
-        for attr in ("0", "-1", "x", "", "1.5", " 2"):
+        def kind_of(attr):
+            if attr in ("x", "", "1.5", "1_0", "\u0661\u0660", "\uff11\uff12", "1e1", "0x10"):
+                return "non-numeric"
+            return "blank-padded" if attr == " 2" else "non-positive"
+
+        # "1_0", Arabic-Indic and full-width digits are numbers for Python's int() but not for XML Schema's positiveInteger
+        for attr in ("0", "-1", "x", "", "1.5", " 2", "1_0", "\u0661\u0660", "\uff11\uff12", "1e1", "0x10"):
             storage.write_ods(path, sheets, ("colruns",), cell_repeat_attr=attr)
-            expect_format_error(ctx, {"fault": "column-repeat-count", "value": attr}, path, 1, "column-repeat-count:%s" % ("non-numeric" if attr in ("x", "", "1.5") else ("blank-padded" if attr == " 2" else "non-positive")),
-                                may_be_benign=(attr == " 2"))
+            expect_format_error(ctx, {"fault": "column-repeat-count", "value": attr}, path, 1, "column-repeat-count:%s" % kind_of(attr), may_be_benign=(attr == " 2"))
             storage.write_ods(path, sheets, ("rowruns",), row_repeat_attr=attr)
-            expect_format_error(ctx, {"fault": "row-repeat-count", "value": attr}, path, 1, "row-repeat-count:%s" % ("non-numeric" if attr in ("x", "", "1.5") else ("blank-padded" if attr == " 2" else "non-positive")),
-                                may_be_benign=(attr == " 2"))
+            expect_format_error(ctx, {"fault": "row-repeat-count", "value": attr}, path, 1, "row-repeat-count:%s" % kind_of(attr), may_be_benign=(attr == " 2"))
+            if attr not in ("0", " 2"):
+                xml = storage.ods_content([[["a   b"]]], ("s",))
+                assert 'text:c="2"' in xml
+                storage.write_ods_raw(path, xml.replace('text:c="2"', 'text:c="%s"' % attr).encode("utf-8"))
+                expect_format_error(ctx, {"fault": "space-count", "value": attr}, path, 1, "space-count:%s" % kind_of(attr))
     if os.path.exists(path):
         os.remove(path)
 
